@@ -347,3 +347,30 @@ Theorem C01_unguarded_statistics_report_refuted :
   exists calls, stats_run stats_update_unguarded calls stats0 = None.
 Proof. exact stats_unguarded_refuted. Qed.
 Print Assumptions C01_unguarded_statistics_report_refuted.
+
+(* ===================== wave 13: the packet that reaches the Crazyflie IS the accepted packet, byte for byte ===== *)
+
+(* The frame handed to the dongle is header :: payload (1 + |payload| bytes, up to 31); the safelink stamping
+   touches the header byte only.  (C01_uplink_exactly_once_in_order compares whole frames, for every payload.) *)
+Theorem C01_frame_is_whole_packet : forall u d hdr data,
+  stamp u d (hdr :: data) = stamp_hdr u d hdr :: data
+  /\ length (stamp u d (hdr :: data)) = S (length data)
+  /\ norm (stamp u d (hdr :: data)) = Z.land hdr 243 :: data.
+Proof. exact frame_is_whole_packet. Qed.
+Print Assumptions C01_frame_is_whole_packet.
+
+(* at the boundary: 30 payload bytes, lost and re-sent in between: all 31 bytes arrive, once *)
+Theorem C01_full_size_packet_delivered :
+  let w := session 3 (mkPeer false false true [] [] None) [NOk]
+             [Submit 60 full30; Tx Ok []; Tx UpLost []; Tx AckLost []; Tx Ok []; Tx Ok []] in
+  filter nnb (p_rx (w_p w)) = [48 :: full30] /\ length (48 :: full30) = 31%nat /\ up_pending w = [].
+Proof. exact full_size_delivered. Qed.
+Print Assumptions C01_full_size_packet_delivered.
+
+(* Cutting the frame at 30 bytes (MAX_DATA_SIZE is the PAYLOAD limit) drops the last payload byte of a full-size
+   packet and nothing else: payloads of 0..29 bytes are untouched. *)
+Theorem C01_truncated_frame_refuted :
+  exists hdr data, length data = 30%nat /\ norm (firstn 30 (hdr :: data)) <> norm (hdr :: data)
+                   /\ forall data', (length data' <= 29)%nat -> firstn 30 (hdr :: data') = hdr :: data'.
+Proof. exact truncated_frame_refuted. Qed.
+Print Assumptions C01_truncated_frame_refuted.
